@@ -507,6 +507,17 @@ func stripConv(v ssa.Value) ssa.Value {
 		case *ssa.ChangeType:
 			v = x.X
 			continue
+		case *ssa.MakeInterface:
+			// a go-nfsd object handed on as a value of an (unexported) interface type is still that object
+			if n := derefNamed(x.X.Type()); n != nil && n.Obj().Pkg() != nil && (strings.HasPrefix(n.Obj().Pkg().Path(), modPath) || strings.HasPrefix(n.Obj().Pkg().Path(), jrnlPath)) {
+				if _, isPtr := x.X.Type().Underlying().(*types.Pointer); isPtr {
+					v = x.X
+					continue
+				}
+			}
+		case *ssa.ChangeInterface:
+			v = x.X
+			continue
 		case *ssa.UnOp:
 			if x.Op == token.MUL {
 				if al, ok := x.X.(*ssa.Alloc); ok {
